@@ -60,3 +60,13 @@ PROPS["C05"] = Prop(
     nontrivial=lambda s, impl: "fault=dtor" in s and "panicked" in impl,
 )
 PARAMS["C05"] = {"rule": "iterator nth / nth_back / last / count / drop from every reachable (front, back) for N <= 6 (thorough: 8), every skip count 0..=len+1, every choice of the element whose destructor panics (and none); boundary positions for N in {16,17,33}. Non-trivial = a destructor panicked."}
+
+PROPS["C07"] = Prop(
+    "C07", ["GA.Props.C07"],
+    [Engine("own", scen.own_c07, sig=own_sig)],
+    trusted=[KERNEL, TRANSLATOR, HARNESS, OWN_TRUST, "modelled, not verified: Vec::with_capacity/extend/Take of alloc and core for the boxed form"],
+    assumptions=["the source is modelled as the list of answers its next() calls give plus a size_hint; answers after the first None may be Some again (not fused)",
+                 "correspondence covers N in {0..8,16,17,33}; theorems cover every N, every script, every hint"],
+    nontrivial=lambda s, impl: "res=ok" in impl or "res=err" in impl,
+)
+PARAMS["C07"] = {"rule": "N in {0..8,16,17,33} x item counts 0..=N+3 x nine size hints (exact, loose, absent-upper, lying low/high, excluding N) x fused / non-fused / never-ending scripts x stack/boxed x try/panicking form x a panic at every poll; plus seeded random scripts. Non-trivial = the call returned Ok or Err (not a panic)."}
